@@ -58,12 +58,12 @@ func (engC15) ID() string    { return "C15" }
 func (engC15) Level() string { return "fault_enumeration" }
 func (engC15) Runs(tier string) int {
 	if tier == "thorough" {
-		return 12000
+		return 8000
 	}
-	return 160
+	return 120
 }
 func (engC15) Rule() string {
-	return "each run builds one seeded table (headers, ragged/multi-line/wide/markup texts, separators, late Row.Add, alignment and skipable column settings) and lists 6-10 renderer routes (text under every built-in decoration and a custom one, csv, html with/without row-class generator and caption, json, markdown; via wrapper.RenderTo, package RenderTo and auto.RenderTo; plain io.Writer or one that also offers WriteString). For each route a fault-free pass records the output O and the number N of Write calls; then EVERY k in 0..N-1 x {sticky, once, partial} is executed (exhaustive in the fault dimension, sampled over tables). evaluations counts faulted renders. A run is non-trivial if its table has a header and at least one row; distinct = distinct (table shape, route list) hashes."
+	return "each run builds one seeded table (headers, ragged/multi-line/wide/markup texts, separators, late Row.Add, alignment and skipable column settings) and lists 6-10 renderer routes (text under every built-in decoration and a custom one, csv, html with/without row-class generator and caption, json, markdown; via wrapper.RenderTo on a fresh wrapper or on one wrapper reused for all faults of the route, package RenderTo and auto.RenderTo; plain io.Writer or one that also offers WriteString). For each route a fault-free pass records the output O and the number N of Write calls; then EVERY k in 0..N-1 x {sticky, once, partial-then-failing, partial-then-succeeding} is executed (exhaustive in the fault dimension, sampled over tables). evaluations counts faulted renders. A run is non-trivial if its table has a header and at least one row; distinct = distinct (table shape, route list) hashes."
 }
 func (engC15) Assumptions() []string {
 	return []string{
@@ -132,7 +132,7 @@ func (engC15) Gen(r *Rng, s *Script, idx int, tier string) {
 		if i >= NFormats {
 			f = []int{FmtText, FmtText, FmtMD, FmtHTML, FmtJSON, FmtCSV}[r.Intn(6)]
 		}
-		st := Step{Op: "render", A: f, B: r.Intn(NDecoChoices), C: []int{ViaPkg, ViaFresh, ViaFresh, ViaAuto}[r.Intn(4)], D: r.Intn(8), E: r.Range(1, 99)}
+		st := Step{Op: "render", A: f, B: r.Intn(NDecoChoices - 1), C: []int{ViaPkg, ViaFresh, ViaFresh, ViaAuto, ViaReused}[r.Intn(5)], D: r.Intn(16), E: r.Range(1, 99)}
 		s.Steps = append(s.Steps, st)
 	}
 }
@@ -161,7 +161,7 @@ func (engC15) Exec(s *Script, keepLog bool) *Result {
 		}
 		spec := specOf(st)
 		spec.ToWriter = true
-		spec.Flags = st.D & 3
+		spec.Flags = st.D & htmlFlagMask
 		routes.str(spec.String())
 		fname := fmtNames[spec.Format]
 		// fault-free reference pass
@@ -178,7 +178,7 @@ func (engC15) Exec(s *Script, keepLog bool) *Result {
 		if ferr != nil {
 			w.probe("faultfree_render_errors")
 		}
-		modes := []int{FaultSticky, FaultOnce, FaultPartial}
+		modes := []int{FaultSticky, FaultOnce, FaultPartial, FaultPartialOnce}
 		ks := make([]int, 0, n)
 		for k := 0; k < n; k++ {
 			ks = append(ks, k)
@@ -258,7 +258,13 @@ func (engC15) Exec(s *Script, keepLog bool) *Result {
 	return finish(w, res)
 }
 
+// sameFaultFree renders once more without a fault, through a FRESH wrapper: if
+// that reproduces the reference output the table itself is repeatable, and a
+// deviation seen on a reused wrapper after an injected fault is C15's own.
 func sameFaultFree(w *World, spec RenderSpec, flags int, ref []byte) bool {
+	if spec.Via == ViaReused {
+		spec.Via = ViaFresh
+	}
 	wr, sw := newSimWriter(flags, nil)
 	_, _, pi := w.Render(spec, wr)
 	return pi == nil && bytes.Equal(sw.Accepted, ref)
